@@ -89,7 +89,8 @@ def exec_plan(ck, exe, plan, stem, shards, filt, keep_every, timeout, env_extra)
                                                                              stderr_tail="\n".join(l for l in r.stderr.splitlines() if not l.startswith("RUN "))[-1500:])))
         total_runs += idx + 1 - skip
         skip = idx + 1
-        if len(crashes) > 200 or skip >= len(plan):
+        hangs = sum(1 for c in crashes if "RUN-HUNG" in c["detail"].get("stderr_tail", ""))
+        if len(crashes) > 200 or skip >= len(plan) or hangs >= 4:      # four runs that had to be abandoned are verdict enough
             break
     info = dict(runs=total_runs, logged=logged, crashes=crashes)
     sh = sorted(os.path.join(ck.work, f) for f in os.listdir(ck.work) if f.startswith(stem + ".") and f.endswith(".ndjson"))
@@ -190,7 +191,9 @@ def c05(tier):
         plan.append(plan_line(p["fen"], "infinite", tt=rnd.choice(["fresh", "poison"]), stop_id=rnd.choice(["node", "qnode"]), stop_n=k, tag="early"))
     # certainly expired or tiny budgets
     for go in ["wtime 1 btime 1", "wtime -5 btime -5", "movetime 1", "wtime 1 btime 1 winc 0 binc 0 movestogo 1", "nodes 1", "nodes 50",
-               "wtime 30 btime 30 winc 5 binc 5", "movetime 5 depth 3"]:
+               "wtime 30 btime 30 winc 5 binc 5", "movetime 5 depth 3",
+               # clock with many moves to go (beyond the allocator's own horizon of 50)
+               "wtime 600 btime 600 movestogo 51", "wtime 600 btime 600 movestogo 60", "wtime 400 btime 400 winc 10 binc 10 movestogo 200"]:
         for rep in range(10 if full else 3):
             p = rnd.choice(pool)
             plan.append(plan_line(p["fen"], go, tt=rnd.choice(["fresh", "warm", "poison"]), tag="budget"))
@@ -415,7 +418,8 @@ def c08(tier):
     def gen(i):
         outp = os.path.join(ck.work, "nearmate%d.txt" % i)
         core.run_vh(exe, ["nearmate-pool", "--out", outp, "--refuted", (250 if full else 50), "--zugzwang", (12 if full else 0), "--max-tries", 600000,
-                          "--minimal", ((1600 if full else 300) if i == 0 else 0), "--seed", core.seed() * 100 + i], timeout=3000)
+                          "--minimal", ((1600 if full else 300) if i == 0 else 0), "--dpush", ((1500 if full else 200) if i == 1 else 0),
+                          "--seed", core.seed() * 100 + i], timeout=3000)
         return [l.rstrip("\n").split("|") for l in open(outp)]
     with ThreadPoolExecutor(max_workers=gens) as ex:
         near = [r for part in ex.map(gen, range(gens)) for r in part]
@@ -424,6 +428,9 @@ def c08(tier):
         if f[5] == "nm-minimal":     # mates in one with the least material that can mate (the draw-by-material test must not pre-empt them)
             for d in ([1, 2, 3] if full else [1, 2]):
                 plan2.append(plan_line(f[0], "depth %d" % d, tt="fresh" if d == 1 else "warm", tag="m1"))
+        elif f[5].startswith("nm-dpush"):   # in check by a slider with a double pawn push among the few evasions, and the move before
+            for d in [1, 2]:
+                plan2.append(plan_line(f[0], "depth %d" % d, tt="fresh" if d == 1 else "warm", tag="near"))
         elif f[5].startswith("nm-refuted"):
             for d in ([1, 2, 3] if full else [1, 2]):
                 plan2.append(plan_line(f[0], "depth %d" % d, tt="fresh" if d == 1 else "warm", tag="near"))
@@ -442,9 +449,16 @@ def c08(tier):
     ck.cov["near_mate_roots"] = dict(minimal_mates=sum(1 for f in near if f[5] == "nm-minimal"), refuted=sum(1 for f in near if f[5].startswith("nm-refuted")), zugzwang_generated=sum(1 for f in near if f[5].startswith("nm-zz")),
                                      zugzwang_corpus=len(zz), runs=i2["runs"])
     others = {}
+    # the harness solver runs on the ENGINE's move generator; MateOracle.tla runs on the specification's.  Where both decide a claim
+    # they must agree; if they do not, the specification decides, the solver's verdicts (claims beyond the TLC bound) are dropped
+    # as undecided for this run, and the disagreement is recorded (it points at the generator, C01's subject)
     dis = [v for v in viols if v.get("kind") == "solver_disagrees_with_specification"]
     if dis:
-        raise InfraError("the harness mate solver disagrees with MateOracle.tla: %s" % json.dumps(dis[0])[:400])
+        viols = [v for v in viols if v.get("kind") != "solver_disagrees_with_specification"
+                 and "harness solver" not in str((v.get("detail") or {}).get("decided_by", ""))]
+        ck.notes.append("the harness mate solver disagreed with MateOracle.tla on %d claim(s), e.g. %s; its verdicts were dropped for this run, the specification's stand"
+                        % (len(dis), json.dumps(dis[0].get("detail"))[:200]))
+        ck.cov["solver_disagreements"] = len(dis)
     take(ck, "C08", viols, others)
     take_crashes(ck, "C08", info, others, covered=False)
     ck.cov["evaluations"] = info["runs"]
@@ -661,7 +675,8 @@ def c10(tier):
     for i in range(40 if full else 12):
         p = rnd.choice(pool)
         script += ["ucinewgame", "position fen " + p["fen"], "go depth %d searchmoves %s" % (rnd.randint(1, 3), " ".join(p["moves"])),
-                   "go movetime %d" % rnd.choice([1, 5, 30]), "go wtime 50 btime 50 winc 1 binc 1", "go nodes %d" % rnd.choice([1, 500, 20000])]
+                   "go movetime %d" % rnd.choice([1, 5, 30]), "go wtime 50 btime 50 winc 1 binc 1", "go nodes %d" % rnd.choice([1, 500, 20000]),
+                   "go wtime 300 btime 300 movestogo %d" % rnd.choice([50, 51, 52, 80, 200, 1000])]
     sessions.append(("searchmoves_all_and_newgames", script))
     # 5. deep forcing lines: long check sequences and capture chains at a high iteration count (search stack)
     script = ["ucinewgame"]
